@@ -485,8 +485,8 @@ func (o *origin) RoundTrip(req *http.Request) (*http.Response, error) {
 		if cond && ex.Req.Cond != nil {
 			rp = ex.Req.Cond
 		}
-		if cond && !fg && ex.Req.BgCond != nil {
-			rp = ex.Req.BgCond
+		if !fg && ex.Req.Bg != nil {
+			rp = ex.Req.Bg
 		}
 	} else {
 		rp = defaultReply()
